@@ -332,6 +332,15 @@ def rules(rep, facts):
         r_value_serializers(rep, facts, 'C17/R15', routes=('edit',), judge='oracle')
         from .rules_serdeflow import r_round_trip
         r_round_trip(rep, facts, 'C17/R16', routes=('edit',))
+    if 'toml_write' in facts.crates:
+        # "the text is valid and decodes to v" for the leaves: every string and key goes through the toml_write builders, and what they write
+        # has to be a string of the grammar that decodes to the same text (seeded change C17-m16: DEL not counted as needing an escape)
+        from .rules_c10 import r5_totality, r9_written_text, Abnf as _Abnf
+        _a = _Abnf()
+        r5_totality(rep, facts, _a)
+        rep.relabel('C10/R5', 'C17/R20', 'every string or key is written in a style the grammar accepts for it: ')
+        r9_written_text(rep, facts, _a)
+        rep.relabel('C10/R9', 'C17/R20b', 'every string or key is written as text that reads back: ')
     if 'toml' in facts.crates:
         from .rules_c16 import map_identity
         R6 = rep.rule('C17/R6', 'the decoded text equals the value whatever order the serializer emitted the entries in: equality of toml::Map is the '
